@@ -40,6 +40,7 @@ TokenAtoms == {
   A("id.plain",      "Ident", <<"letter", "letter">>),
   A("id.hex",        "Ident", <<"hex", "hex">>),
   A("id.e",          "Ident", <<"e">>),
+  A("id.e3",         "Ident", <<"e", "digit">>),                                      \* looks like an exponent behind `1` `.`
   A("id.u",          "Ident", <<"u">>),
   A("id.url",        "Ident", <<"u", "r", "l">>),
   A("id.digit",      "Ident", <<"letter", "digit">>),
@@ -73,6 +74,7 @@ TokenAtoms == {
   A("func.xurl",     "Function", <<"letter", "u", "r", "l", "lparen">>),
   A("func.urll",     "Function", <<"u", "r", "l", "l", "lparen">>),
   A("func.ur",       "Function", <<"u", "r", "lparen">>),
+  A("func.hex",      "Function", <<"hex", "e", "lparen">>),
   \* ---- <at-keyword-token>
   A("at.plain",      "AtKeyword", <<"at", "letter", "letter">>),
   A("at.dash",       "AtKeyword", <<"at", "dash", "letter">>),
@@ -235,13 +237,26 @@ URShape == [n \in {"ur.single", "ur.hex", "ur.six", "ur.range", "ur.range6", "ur
 OpenEscape == {"id.esc.hexopen"}
 
 (***************************************************************************)
-(* NeedsSep(a, t): token atom a directly followed by text t (the classes   *)
-(* of everything up to the next separator) would not be tokenised as a     *)
+(* Merges(a, t): token atom a directly followed by text t (the classes of  *)
+(* everything up to the next separator) would NOT be tokenised as a        *)
 (* followed by the tokens of t.  One disjunct per look-ahead rule of       *)
 (* section 4.3 ("would start an identifier", "starts with a number",       *)
 (* consume a name / number / unicode-range, the two-code-point operators). *)
 (* `--` is treated as the start of an identifier (css-variables / later    *)
 (* editions), so texts on which the editions differ are never juxtaposed.  *)
+(*                                                                         *)
+(* NeedsSep(a, b) is the table of section 9 "Serialization": it speaks     *)
+(* about token TYPES (delimiters by their character), and asks for a       *)
+(* separator between two types as soon as SOME token of the first type     *)
+(* merges with some token of the second.  It is derived here as exactly    *)
+(* that closure of Merges over the atoms, which reproduces the rows of the *)
+(* standard's table (ident x ident/function/url/bad-url/-/number/          *)
+(* percentage/dimension/CDC/(, number x ident/.../%, # - @ . + / rows) and *)
+(* extends them to the tokens the later editions dropped (unicode-range    *)
+(* x ident/function/number/percentage/dimension/?, `$*^~|` x `=`, `|`x`|`) *)
+(* and to custom property names.  The property quantifies over sequences   *)
+(* "separated wherever the specification says two tokens would otherwise   *)
+(* merge": a pair is juxtaposed only if the table allows it.               *)
 (***************************************************************************)
 F(t, i) == IF i <= Len(t) THEN t[i] ELSE "EOF"
 StartsEscape(t) == F(t, 1) = "bslash" /\ F(t, 2) \notin {"nl", "EOF"}
@@ -252,9 +267,11 @@ DotDigit(t)     == F(t, 1) = "dot" /\ Digit(F(t, 2))
 NameEnding(k)   == k \in {"Ident", "CustomPropertyName", "AtKeyword", "Hash", "Dimension"}
 Has(c, x)       == \E i \in 1..Len(c) : c[i] = x
 
-NeedsSep(a, t) ==
+Merges(a, t) ==
   LET k == Kind[a]  c == Cls[a]  f1 == F(t, 1)  f2 == F(t, 2)  f3 == F(t, 3) IN
   \/ NameEnding(k) /\ StartsNameCh(t)                                  \* the name goes on
+  \/ k = "Dimension" /\ c[Len(c)] = "e" /\ (\A i \in 1..(Len(c) - 1) : c[i] \in {"digit", "dot", "plus", "dash"})
+       /\ f1 = "plus" /\ Digit(f2)                                    \* the unit `e` becomes an exponent (1e +5)
   \/ k \in {"Ident", "CustomPropertyName"} /\ f1 = "lparen"            \* becomes a function (or url)
   \/ k = "Ident" /\ c = <<"u">> /\ f1 = "plus" /\ (HexDigit(f2) \/ f2 = "qmark")     \* becomes a unicode range
   \/ k = "Number" /\ \/ StartsIdent(t)                                 \* becomes a dimension (or gets an exponent)
@@ -279,10 +296,18 @@ NeedsSep(a, t) ==
          [] c[1] \in {"tilde", "caret", "dollar", "star"} -> f1 = "eq"
          [] OTHER -> FALSE
 
-\* separator choices behind a token atom: "none" only where NeedsSep allows (decided by the generator on the whole run)
-SepsAfter(a) == IF Kind[a] = "BadString" THEN {"sep.nl", "sep.nlsp"}
-                ELSE IF a \in OpenEscape THEN {"none", "sep.cmt", "sep.cmt0"}
-                ELSE {"none"} \cup SepNames
+TokenOrFinal == TokenNames \cup FinalNames
+TypeKey(a)  == IF Kind[a] = "Delim" THEN Cls[a][1] ELSE Kind[a]
+TypeKeys    == {TypeKey(a) : a \in TokenOrFinal}
+OfType      == [k \in TypeKeys |-> {a \in TokenOrFinal : TypeKey(a) = k}]
+TypeTable   == [ka \in TypeKeys, kb \in TypeKeys |-> \E a \in OfType[ka] \cap TokenNames, b \in OfType[kb] : Merges(a, Cls[b])]
+NeedsSep(a, b) == TypeTable[TypeKey(a), TypeKey(b)]
+
+\* separator choices behind a token atom: "none" only where NeedsSep and Merges allow (decided by the generator on the whole run)
+BasicSeps == {"sep.sp", "sep.nl", "sep.cmt"}
+SepsAfter(a, basic) == IF Kind[a] = "BadString" THEN (IF basic THEN {"sep.nl"} ELSE {"sep.nl", "sep.nlsp"})
+                       ELSE IF a \in OpenEscape THEN (IF basic THEN {"none", "sep.cmt"} ELSE {"none", "sep.cmt", "sep.cmt0"})
+                       ELSE {"none"} \cup (IF basic THEN BasicSeps ELSE SepNames)
 
 (***************************************************************************)
 (* Acceptance (used by CssTokensTrace).  The expectation is the sequence   *)
